@@ -174,6 +174,220 @@ Section SeqProofs.
     destruct er; [discriminate|]. apply af_loop_no_error in E. destruct E as [E _]. subst. reflexivity.
   Qed.
 
+  (* ---- AppendFile::append, the retry loop in detail ---- *)
+  (* [written] never exceeds what the stream accepted; on the ferror path it is exactly what the stream
+     accepted before the failing call, and the failing call's bytes are on the stream but not counted *)
+  Lemma af_loop_written env : forall data,
+    match af_loop env data with
+    | (acc, w, er) => (w <= length acc)%nat /\ (length acc <= length data)%nat /\ acc = firstn (length acc) data /\
+                      (er = false -> w = length acc)
+    end.
+  Proof.
+    induction env as [|[k e] env IH]; intros data.
+    - destruct data as [|a d]; cbn [af_loop]; repeat split; auto; rewrite ?firstn_all; auto.
+    - destruct data as [|a d]; cbn [af_loop]; [repeat split; auto|].
+      destruct (Nat.leb_spec (length (a :: d)) k) as [Hle|Hlt].
+      + repeat split; auto. rewrite firstn_all. reflexivity.
+      + destruct e.
+        * rewrite firstn_length. repeat split; try lia; try discriminate.
+          rewrite Nat.min_l by lia. reflexivity.
+        * specialize (IH (skipn k (a :: d))). destruct (af_loop env (skipn k (a :: d))) as [[acc w] er].
+          destruct IH as [H1 [H2 [H3 H4]]]. rewrite skipn_length in H2.
+          rewrite app_length, firstn_length, Nat.min_l by lia.
+          repeat split; try lia.
+          -- rewrite <- (firstn_skipn k (a :: d)) at 2. rewrite firstn_app, firstn_length, Nat.min_l by lia.
+             replace (k + length acc - k)%nat with (length acc) by lia.
+             rewrite firstn_firstn, Nat.min_r by lia. rewrite <- H3. reflexivity.
+          -- intros Hf. rewrite (H4 Hf). reflexivity.
+  Qed.
+
+  (* short writes without ferror (zero-byte results included) are retried until the record is complete *)
+  Lemma af_loop_retries env : forall data,
+    Forall (fun x : wres => snd x = false) env -> af_loop env data = (data, length data, false).
+  Proof.
+    induction env as [|[k e] env IH]; intros data HF.
+    - destruct data; reflexivity.
+    - destruct data as [|a d]; [reflexivity|]. cbn [af_loop].
+      inversion HF as [|x l He HF']; subst. cbn [snd] in He. subst e.
+      destruct (Nat.leb_spec (length (a :: d)) k) as [Hle|Hlt]; [reflexivity|].
+      rewrite (IH _ HF'). rewrite firstn_skipn, skipn_length. f_equal. f_equal. lia.
+  Qed.
+
+  (* ---- LogFile: bookkeeping invariants, for all configurations, clocks and op lists ---- *)
+  Definition lf_inv (c : cfg) s : Prop :=
+    sop s = period (lastRoll s) /\
+    0 <= cnt s < Z.max 1 (checkEveryN c) /\
+    match files s with
+    | (nm, d) :: _ => nm = lastRoll s /\ 0 <= wb s <= Z.of_nat (length d)
+    | [] => False
+    end.
+
+  Lemma lf_inv_roll c now s : lf_inv c s -> lf_inv c (fst (roll now s)).
+  Proof.
+    intros [H1 [H2 H3]]. unfold roll. destruct (roll_test (lastRoll s) now); cbn [fst]; [|exact (conj H1 (conj H2 H3))].
+    unfold lf_inv. cbn [sop lastRoll cnt files wb length]. repeat split; auto; lia.
+  Qed.
+
+  Lemma lf_inv_put c acc w s : (w <= length acc)%nat -> lf_inv c s -> lf_inv c (put acc w s).
+  Proof.
+    intros Hw [H1 [H2 H3]]. unfold put. destruct (files s) as [|[nm d] r] eqn:E; [contradiction|].
+    unfold lf_inv. cbn [sop lastRoll cnt files wb]. rewrite app_length. repeat split; auto; lia.
+  Qed.
+
+  Lemma lf_inv_same c s s' :
+    sop s' = sop s -> lastRoll s' = lastRoll s -> files s' = files s -> wb s' = wb s ->
+    0 <= cnt s' < Z.max 1 (checkEveryN c) -> lf_inv c s -> lf_inv c s'.
+  Proof. intros E1 E2 E3 E4 Hc [H1 [H2 H3]]. unfold lf_inv. rewrite E1, E2, E3, E4. auto. Qed.
+
+  Lemma lf_inv_step c s o : lf_inv c s -> lf_inv c (lf_step c s o).
+  Proof.
+    intros H. destruct o as [d env now now2| |now]; cbn [lf_step].
+    - unfold lf_append. pose proof (af_loop_written env d) as Hw.
+      destruct (af_loop env d) as [[acc w] er]. destruct Hw as [Hw _]. cbn [fst].
+      pose proof (lf_inv_put c acc w s Hw H) as H1. pose proof H1 as [_ [Hc _]].
+      destruct (rollSize c <? wb (put acc w s)); [apply lf_inv_roll; exact H1|].
+      destruct (Z.leb_spec (checkEveryN c) (cnt (put acc w s) + 1)) as [Hge|Hlt].
+      + assert (H0 : lf_inv c (set_cnt 0 (put acc w s))) by (eapply lf_inv_same; [| | | | |exact H1]; try reflexivity; cbn [set_cnt cnt]; lia).
+        destruct (period now =? sop (set_cnt 0 (put acc w s))).
+        * destruct (flushInterval c <? now - lastFlush (set_cnt 0 (put acc w s)));
+            [eapply lf_inv_same; [| | | | |exact H0]; try reflexivity; cbn [do_flush set_lastFlush set_cnt cnt]; lia|exact H0].
+        * apply lf_inv_roll. exact H0.
+      + eapply lf_inv_same; [| | | | |exact H1]; try reflexivity. cbn [set_cnt cnt]. lia.
+    - eapply lf_inv_same; [| | | | |exact H]; try reflexivity. destruct H as [_ [Hc _]]. exact Hc.
+    - apply lf_inv_roll. exact H.
+  Qed.
+
+  Lemma lf_inv_new c now : 0 < now -> lf_inv c (lf_new now).
+  Proof.
+    intros Hn. unfold lf_new, roll. cbn [lastRoll]. rewrite (roll_test_0 now Hn). cbn [fst].
+    unfold lf_inv. cbn [sop lastRoll cnt files wb length]. repeat split; auto; lia.
+  Qed.
+
+  Lemma lf_inv_run c ops : forall s, lf_inv c s -> lf_inv c (lf_run c s ops).
+  Proof.
+    induction ops as [|o ops IH]; intros s H; cbn [lf_run fold_left]; [exact H|].
+    apply IH. apply lf_inv_step. exact H.
+  Qed.
+
+  (* without stream errors writtenBytes_ is exactly the size of the current file *)
+  Definition lf_exact s : Prop :=
+    match files s with (nm, d) :: _ => wb s = Z.of_nat (length d) | [] => True end.
+
+  Lemma lf_exact_roll now s : lf_exact s -> lf_exact (fst (roll now s)).
+  Proof. intros H. unfold roll. destruct (roll_test (lastRoll s) now); cbn [fst]; [reflexivity|exact H]. Qed.
+
+  Lemma lf_exact_step c s o : op_error o = false -> lf_exact s -> lf_exact (lf_step c s o).
+  Proof.
+    intros Hok H. destruct o as [d env now now2| |now]; cbn [lf_step].
+    - cbn [op_error] in Hok. unfold lf_append. destruct (af_loop env d) as [[acc w] er] eqn:E. cbn [snd fst] in *. subst er.
+      apply af_loop_no_error in E. destruct E as [-> ->].
+      assert (H1 : lf_exact (put d (length d) s)).
+      { unfold lf_exact, put in *. destruct (files s) as [|[nm d0] r] eqn:Ef; [rewrite Ef; exact I|]. cbn [files wb]. rewrite app_length. lia. }
+      destruct (rollSize c <? wb (put d (length d) s)); [apply lf_exact_roll; exact H1|].
+      destruct (checkEveryN c <=? cnt (put d (length d) s) + 1).
+      + destruct (period now =? sop (set_cnt 0 (put d (length d) s))).
+        * destruct (flushInterval c <? now - lastFlush (set_cnt 0 (put d (length d) s))); exact H1.
+        * apply lf_exact_roll. exact H1.
+      + exact H1.
+    - exact H.
+    - apply lf_exact_roll. exact H.
+  Qed.
+
+  Lemma lf_exact_run c ops : forall s,
+    forallb (fun o => negb (op_error o)) ops = true -> lf_exact s -> lf_exact (lf_run c s ops).
+  Proof.
+    induction ops as [|o ops IH]; intros s Hok H; cbn [lf_run fold_left]; [exact H|].
+    cbn [forallb] in Hok. apply andb_true_iff in Hok. destruct Hok as [Ho Hr].
+    apply IH; [exact Hr|]. apply lf_exact_step; [|exact H]. destruct (op_error o); [discriminate|reflexivity].
+  Qed.
+
+  Theorem logfile_bookkeeping c now ops :
+    0 < now ->
+    let s := lf_run c (lf_new now) ops in
+    sop s = period (lastRoll s) /\
+    0 <= cnt s < Z.max 1 (checkEveryN c) /\
+    (exists d older, files s = (lastRoll s, d) :: older /\ 0 <= wb s <= Z.of_nat (length d) /\
+       (forallb (fun o => negb (op_error o)) ops = true -> wb s = Z.of_nat (length d))).
+  Proof.
+    intros Hn s. pose proof (lf_inv_run c ops _ (lf_inv_new c now Hn)) as [H1 [H2 H3]]. fold s in H1, H2, H3.
+    split; [exact H1|]. split; [exact H2|].
+    destruct (files s) as [|[nm d] older] eqn:E; [contradiction|]. destruct H3 as [-> Hw].
+    exists d, older. repeat split; auto; try lia.
+    intros Hok. assert (Hx : lf_exact (lf_new now)).
+    { unfold lf_exact, lf_new, roll. destruct (roll_test (lastRoll _) now); cbn [fst files]; [reflexivity|exact I]. }
+    pose proof (lf_exact_run c ops _ Hok Hx) as He. fold s in He. unfold lf_exact in He. rewrite E in He. exact He.
+  Qed.
+
+  (* ---- LogFile::append_unlocked, case by case: size roll / nothing / day-boundary roll / flush by interval ---- *)
+  Theorem lf_append_cases c d env now now2 s :
+    let '(acc, w, er) := af_loop env d in
+    let s1 := put acc w s in
+    let s' := fst (lf_append c d env now now2 s) in
+    snd (lf_append c d env now now2 s) = er /\
+    ( (* the file got too big: roll on the first clock value, count_ untouched, no flush *)
+      (rollSize c < wb s1 /\ s' = fst (roll now s1))
+      \/ (* not a check point: only count_ moves; the clock is not consulted, no flush, no roll *)
+      (wb s1 <= rollSize c /\ cnt s1 + 1 < checkEveryN c /\ s' = set_cnt (cnt s1 + 1) s1)
+      \/ (* check point in another period than the file's: day-boundary roll on the second clock value *)
+      (wb s1 <= rollSize c /\ checkEveryN c <= cnt s1 + 1 /\ period now <> sop s1 /\
+         s' = fst (roll now2 (set_cnt 0 s1)))
+      \/ (* check point, same period, last flush too old: flush, lastFlush_ = now *)
+      (wb s1 <= rollSize c /\ checkEveryN c <= cnt s1 + 1 /\ period now = sop s1 /\
+         flushInterval c < now - lastFlush s1 /\ s' = do_flush (set_lastFlush now (set_cnt 0 s1)) /\
+         nflush s' = S (nflush s) /\ lastFlush s' = now)
+      \/ (* check point, same period, flushed recently: nothing but count_ = 0 *)
+      (wb s1 <= rollSize c /\ checkEveryN c <= cnt s1 + 1 /\ period now = sop s1 /\
+         now - lastFlush s1 <= flushInterval c /\ s' = set_cnt 0 s1 /\ nflush s' = nflush s) ).
+  Proof.
+    unfold lf_append. destruct (af_loop env d) as [[acc w] er]. cbn [fst snd]. split; [reflexivity|].
+    assert (Hnf : nflush (put acc w s) = nflush s) by (unfold put; destruct (files s) as [|[nm d0] r]; reflexivity).
+    assert (Hsop : sop (set_cnt 0 (put acc w s)) = sop (put acc w s)) by reflexivity.
+    assert (Hlf : lastFlush (set_cnt 0 (put acc w s)) = lastFlush (put acc w s)) by reflexivity.
+    destruct (Z.ltb_spec (rollSize c) (wb (put acc w s))) as [Hbig|Hsmall]; [left; auto|right].
+    destruct (Z.leb_spec (checkEveryN c) (cnt (put acc w s) + 1)) as [Hchk|Hno]; [right|left; auto].
+    rewrite Hsop, Hlf.
+    destruct (Z.eqb_spec (period now) (sop (put acc w s))) as [Hsame|Hother]; [right|left; auto].
+    destruct (Z.ltb_spec (flushInterval c) (now - lastFlush (put acc w s))) as [Hold|Hrecent]; [left|right].
+    - repeat split; auto. cbn [do_flush set_lastFlush set_cnt nflush]. rewrite Hnf. reflexivity.
+    - repeat split; auto.
+  Qed.
+
+  (* the flush interval as a guarantee: right after a check point that did not roll, the last flush (or the
+     creation of the file) is at most flushInterval seconds older than the clock value just read *)
+  Corollary flush_interval_kept c d env now now2 s :
+    0 <= flushInterval c ->
+    let '(acc, w, _) := af_loop env d in
+    let s1 := put acc w s in
+    let s' := fst (lf_append c d env now now2 s) in
+    wb s1 <= rollSize c -> checkEveryN c <= cnt s1 + 1 -> period now = sop s1 ->
+    now - lastFlush s' <= flushInterval c.
+  Proof.
+    intros Hfi. pose proof (lf_append_cases c d env now now2 s) as H.
+    destruct (af_loop env d) as [[acc w] er]. cbn zeta in *. destruct H as [_ H]. intros Hs Hc Hp.
+    destruct H as [[H _]|[[_ [H _]]|[[_ [_ [H _]]]|[[_ [_ [_ [_ [_ [_ H]]]]]]|[_ [_ [_ [H [E _]]]]]]]]]; try lia; try congruence.
+    rewrite E. cbn [set_cnt lastFlush]. exact H.
+  Qed.
+
+  (* the day boundary: a check point whose first clock value lies in another period than the file's and
+     whose second clock value is past the last creation second starts a new file named by that second,
+     with startOfPeriod_ its period; the record just appended stays in the old file *)
+  Corollary day_boundary_roll c d env now now2 s :
+    LogFile_roll_guard_is_gt = true ->
+    let '(acc, w, _) := af_loop env d in
+    let s1 := put acc w s in
+    let s' := fst (lf_append c d env now now2 s) in
+    wb s1 <= rollSize c -> checkEveryN c <= cnt s1 + 1 -> period now <> sop s1 -> lastRoll s < now2 ->
+    files s' = (now2, []) :: files s1 /\ sop s' = period now2 /\ lastRoll s' = now2 /\ lastFlush s' = now2 /\
+    cnt s' = 0 /\ wb s' = 0.
+  Proof.
+    intros Hg. pose proof (lf_append_cases c d env now now2 s) as H.
+    destruct (af_loop env d) as [[acc w] er]. cbn zeta in *. destruct H as [_ H]. intros Hs Hc Hp Hl.
+    assert (Hlr : lastRoll (set_cnt 0 (put acc w s)) = lastRoll s) by (unfold put; destruct (files s) as [|[nm d0] r]; reflexivity).
+    destruct H as [[H _]|[[_ [H _]]|[[_ [_ [_ E]]]|[[_ [_ [H _]]]|[_ [_ [H _]]]]]]]; try lia; try congruence.
+    rewrite E. unfold roll. rewrite (roll_test_gt _ _ Hg), Hlr.
+    destruct (Z.ltb_spec (lastRoll s) now2) as [_|Hc2]; [|lia]. cbn [fst files sop lastRoll lastFlush cnt wb set_cnt]. repeat split; reflexivity.
+  Qed.
+
   (* ---- at most one new file per second: names strictly increase with creation ---- *)
   Hypothesis Hguard : LogFile_roll_guard_is_gt = true.
 
@@ -256,6 +470,63 @@ Section SeqProofs.
   Qed.
 End SeqProofs.
 
+(* ====================================================================== file names *)
+Section NamesProofs.
+  Variables (X : Type) (ltX : X -> X -> Prop).
+  Notation lex := (lex_lt X ltX).
+
+  Lemma lex_prefix p a b : lex a b -> lex (p ++ a) (p ++ b).
+  Proof. intros H. induction p as [|x p IH]; cbn [app]; [exact H|apply lex_tail; exact IH]. Qed.
+
+  (* two strings of the same length that compare as less keep doing so whatever follows them *)
+  Lemma lex_same_len a b : lex a b -> length a = length b -> forall s1 s2, lex (a ++ s1) (b ++ s2).
+  Proof.
+    induction 1 as [x l|x y l1 l2 Hxy|x l1 l2 H IH]; intros Hl s1 s2; cbn [length] in Hl; cbn [app].
+    - discriminate.
+    - apply lex_head. exact Hxy.
+    - apply lex_tail. apply IH. lia.
+  Qed.
+
+  Lemma fname_mono (stamp : Z -> list X) w base host pidlog a b :
+    (forall t, length (stamp t) = w) -> lex (stamp a) (stamp b) ->
+    lex (fname X stamp base host pidlog a) (fname X stamp base host pidlog b).
+  Proof.
+    intros Hw H. unfold fname. apply lex_prefix. apply lex_same_len; [exact H|]. rewrite !Hw. reflexivity.
+  Qed.
+
+  Lemma ss_map {U V} (f : U -> V) (RU : U -> U -> Prop) (RV : V -> V -> Prop) (Q : U -> Prop) l :
+    (forall a b, Q a -> Q b -> RU a b -> RV (f a) (f b)) -> Forall Q l ->
+    StronglySorted RU l -> StronglySorted RV (map f l).
+  Proof.
+    intros Hf HQ Hs. induction Hs as [|a l Hs IH Ha]; cbn [map]; [constructor|].
+    inversion HQ as [|a' l' Qa Ql]; subst. constructor; [apply IH; exact Ql|].
+    apply Forall_forall. intros v Hv. apply in_map_iff in Hv. destruct Hv as [u [<- Hu]].
+    apply Hf; auto; [eapply Forall_forall in Ql; eauto|eapply Forall_forall in Ha; eauto].
+  Qed.
+
+  (* LogFile::getLogFileName: with basename, host name and pid fixed, and a time stamp of fixed width that
+     grows (lexicographically) with the second - the contract of strftime("%Y%m%d-%H%M%S") over gmtime_r for
+     years of four digits -, the names of the files grow strictly in creation order: sorting the directory
+     by name gives the creation order, and no name is used twice *)
+  Theorem file_names_increase (A : Type) (stamp : Z -> list X) (w : nat) (lo hi : Z) base host pidlog
+      (c : cfg) (now : Z) (ops : list (sop_t A)) :
+    LogFile_roll_guard_is_gt = true ->
+    (forall t, length (stamp t) = w) ->
+    (forall a b, lo <= a -> a < b -> b < hi -> lex (stamp a) (stamp b)) ->
+    let fs := files_in_order (lf_run c (@lf_new A now) ops) in
+    Forall (fun f => lo <= fst f < hi) fs ->
+    StronglySorted lex (map (fun f => fname X stamp base host pidlog (fst f)) fs).
+  Proof.
+    intros Hg Hw Hm fs Hr.
+    pose proof (names_increasing A Hg c now ops) as Hs. fold fs in Hs.
+    rewrite <- (map_map fst (fname X stamp base host pidlog)).
+    apply (ss_map _ Z.lt lex (fun t => lo <= t < hi)); [| |exact Hs].
+    - intros a b Qa Qb Hab. apply (fname_mono stamp w); [exact Hw|]. apply Hm; lia.
+    - apply Forall_forall. intros t Ht. apply in_map_iff in Ht. destruct Ht as [f [<- Hf]].
+      eapply Forall_forall in Hr; eauto.
+  Qed.
+End NamesProofs.
+
 (* ====================================================================== subsequences *)
 Section Subseq.
   Context {X : Type}.
@@ -303,7 +574,7 @@ Section AsyncProofs.
   Variable rlen : R -> Z.
   Variable P : params.
   Hypothesis HP : params_ok P = true.
-  Hypothesis Hfit : p_fit_gt P = true.
+  Hypothesis Hagree : sites_agree P = true.
 
   Notation astate := (ast R).
   Notation stepP := (step R rlen P).
@@ -315,8 +586,14 @@ Section AsyncProofs.
   Notation dropped_ofP := (dropped_of R P).
   Notation kept_ofP := (kept_of R P).
 
-  Lemma fits_gt r (b : buf R) : fits R rlen P r b = (rlen r <? p_cap P - blen b).
-  Proof. unfold fits. rewrite Hfit. reflexivity. Qed.
+  (* the fit test of AsyncLogging::append passing implies that FixedBuffer::append copies *)
+  Lemma fits_copies r (b : buf R) : fits R rlen P r b = true -> copies R rlen P r b = true.
+  Proof.
+    pose proof Hagree as H. unfold sites_agree in H. unfold fits, copies.
+    destruct (p_fit_gt P), (p_copy_gt P); cbn in H; try discriminate; intros E; auto.
+    apply Z.ltb_lt in E. apply Z.leb_le. lia.
+  Qed.
+
 
   Lemma params_facts : (2 <= p_keep P)%nat /\ (2 <= p_rkeep P)%nat /\ (p_keep P <= p_thr P)%nat /\ 0 < p_cap P.
   Proof.
@@ -327,6 +604,12 @@ Section AsyncProofs.
   Qed.
 
   Definition small (r : R) : Prop := rlen r < p_cap P.
+
+  Lemma copies_empty r : small r -> copies R rlen P r empty_buf = true.
+  Proof.
+    unfold small, copies. cbn [empty_buf blen]. intros H.
+    destruct (p_copy_gt P); [apply Z.ltb_lt|apply Z.leb_le]; lia.
+  Qed.
 
   Ltac prj := cbn [sh be gh progs cur nxt bufs running pc nb1 nb2 twn fault hist owner mark swapmark batches
                    fbatch dropped out joined emit set_pc set_be recs blen] in *.
@@ -355,12 +638,11 @@ Section AsyncProofs.
     flat (bufs (fe_append R rlen P r s)) ++ recs (cur (fe_append R rlen P r s)) =
     (flat (bufs s) ++ recs (cur s)) ++ [r].
   Proof.
-    intros Hr. unfold fe_append. rewrite fits_gt.
-    destruct (rlen r <? p_cap P - blen (cur s)) eqn:E; prj.
-    - unfold buf_append. rewrite E. prj. rewrite app_assoc. reflexivity.
-    - unfold buf_append. cbn [empty_buf blen recs].
-      destruct (Z.ltb_spec (rlen r) (p_cap P - 0)) as [_|Hc]; [|unfold small in Hr; lia].
-      prj. rewrite flat_app, flat_one. cbn [app]. reflexivity.
+    intros Hr. unfold fe_append.
+    destruct (fits R rlen P r (cur s)) eqn:E; prj.
+    - unfold buf_append. rewrite (fits_copies _ _ E). prj. rewrite app_assoc. reflexivity.
+    - unfold buf_append. rewrite (copies_empty r Hr). cbn [empty_buf blen recs]. prj.
+      rewrite flat_app, flat_one. cbn [app]. reflexivity.
   Qed.
 
   Lemma inv_hist_init progs0 : Forall (Forall small) progs0 -> inv_hist (init progs0).
@@ -549,7 +831,24 @@ Section AsyncProofs.
       unfold inv_stop. prj. rewrite ?Epc in *. repeat split; auto.
   Qed.
   (* ------------------------------------------------------------------ invariant 4: bounds, recycling *)
-  Definition lt_cap (b : buf R) : Prop := blen b < p_cap P.
+  (* no buffer holds more than its capacity; strictly less with the strict fit test *)
+  Definition lt_cap (b : buf R) : Prop := if p_fit_gt P then blen b < p_cap P else blen b <= p_cap P.
+
+  Lemma lt_cap_le b : lt_cap b -> blen b <= p_cap P /\ (p_fit_gt P = true -> blen b < p_cap P).
+  Proof. unfold lt_cap. destruct (p_fit_gt P); intros H; split; auto; try lia; try discriminate. Qed.
+
+  Lemma lt_cap_empty : lt_cap empty_buf.
+  Proof.
+    destruct params_facts as [_ [_ [_ Hc]]]. unfold lt_cap. cbn [empty_buf blen]. destruct (p_fit_gt P); lia.
+  Qed.
+
+  Lemma lt_cap_first r : small r -> lt_cap (mkBuf [r] (0 + rlen r)).
+  Proof. unfold lt_cap, small. cbn [blen]. destruct (p_fit_gt P); lia. Qed.
+
+  Lemma fits_room r (b : buf R) : fits R rlen P r b = true -> lt_cap (mkBuf (recs b ++ [r]) (blen b + rlen r)).
+  Proof.
+    unfold fits, lt_cap. cbn [blen]. destruct (p_fit_gt P); intros E; [apply Z.ltb_lt in E|apply Z.leb_le in E]; lia.
+  Qed.
 
   Definition nxt_ok (s : astate) : Prop := nxt (sh s) = false -> bufs (sh s) <> [].
 
@@ -567,7 +866,7 @@ Section AsyncProofs.
   Lemma inv_bound_init progs0 : inv_bound (init progs0).
   Proof.
     destruct params_facts as [_ [_ [_ Hc]]].
-    unfold inv_bound, init, lt_cap, nxt_ok. prj. cbn [empty_buf blen]. repeat split; auto. intros; discriminate.
+    unfold inv_bound, init, nxt_ok. prj. repeat split; auto; try apply lt_cap_empty; try (intros; discriminate).
   Qed.
 
   Lemma recycle_ok (b : backend_t R) :
@@ -583,17 +882,17 @@ Section AsyncProofs.
   Qed.
 
   Lemma fe_append_bound r (s : shared_t R) :
-    lt_cap (cur s) -> Forall lt_cap (bufs s) ->
+    small r -> lt_cap (cur s) -> Forall lt_cap (bufs s) ->
     lt_cap (cur (fe_append R rlen P r s)) /\ Forall lt_cap (bufs (fe_append R rlen P r s)) /\
     ((nxt s = false -> bufs s <> []) -> nxt (fe_append R rlen P r s) = false -> bufs (fe_append R rlen P r s) <> []).
   Proof.
-    destruct params_facts as [_ [_ [_ Hc]]].
-    intros Hcur Hb. unfold fe_append, lt_cap in *. rewrite fits_gt.
-    destruct (Z.ltb_spec (rlen r) (p_cap P - blen (cur s))) as [Hyes|Hno]; prj.
-    - unfold buf_append. destruct (Z.ltb_spec (rlen r) (p_cap P - blen (cur s))); prj; repeat split; auto; lia.
-    - unfold buf_append. cbn [empty_buf blen].
-      repeat split.
-      + destruct (rlen r <? p_cap P - 0) eqn:E; prj; cbn [empty_buf blen]; [apply Z.ltb_lt in E; lia|lia].
+    intros Hr Hcur Hb. unfold fe_append.
+    destruct (fits R rlen P r (cur s)) eqn:E; prj.
+    - unfold buf_append. rewrite (fits_copies _ _ E). prj. split; [|split; auto].
+      apply fits_room. exact E.
+    - unfold buf_append. rewrite (copies_empty r Hr). cbn [empty_buf blen recs app]. prj.
+      split; [|split].
+      + apply lt_cap_first. exact Hr.
       + apply Forall_app. split; [exact Hb|]. constructor; [exact Hcur|constructor].
       + intros _ _ Hx. destruct (bufs s); discriminate.
   Qed.
@@ -607,13 +906,16 @@ Section AsyncProofs.
     destruct Hcase as [[Hp _]|[[Hp _]|[Hp _]]]; subst p; repeat split; auto.
   Qed.
 
-  Lemma inv_bound_step s l s' : inv_bound s -> stepP s l = Some s' -> inv_bound s'.
+  Lemma inv_bound_step s l s' :
+    Forall (Forall small) (progs s) -> inv_bound s -> stepP s l = Some s' -> inv_bound s'.
   Proof.
     destruct params_facts as [Hk [Hrk [Hkt Hc]]].
-    intros [Hf [Hcur [Hb Hpc]]] Hstep. destruct l as [t| | |]; cbn [step] in Hstep.
-    - destruct (nth_error (progs s) t) as [[|r rest]|]; try discriminate.
+    intros Hsm [Hf [Hcur [Hb Hpc]]] Hstep. destruct l as [t| | |]; cbn [step] in Hstep.
+    - destruct (nth_error (progs s) t) as [[|r rest]|] eqn:Ep; try discriminate.
       inversion Hstep; subst s'; clear Hstep.
-      destruct (fe_append_bound r (sh s) Hcur Hb) as [A1 [A2 A3]].
+      assert (Hr : small r).
+      { eapply Forall_forall in Hsm; [|eapply nth_error_In; exact Ep]. inversion Hsm; assumption. }
+      destruct (fe_append_bound r (sh s) Hr Hcur Hb) as [A1 [A2 A3]].
       unfold inv_bound, nxt_ok in *. prj. repeat split; auto.
       destruct (pc (be s)) as [| | |batch|batch|todo [|]| |]; auto;
         repeat match goal with H : _ /\ _ |- _ => destruct H end; repeat split; auto.
@@ -622,15 +924,15 @@ Section AsyncProofs.
       + destruct Hpc as [? [? ?]]. apply loop_head_bound; auto.
       + destruct Hpc as [Hn1 [Hn2 Hnx]]. destruct (bufs (sh s)) eqn:Eb.
         * unfold inv_bound, nxt_ok in *. prj. rewrite Eb in *. repeat split; auto.
-        * unfold inv_bound, do_swap, nxt_ok, lt_cap in *. prj. cbn [empty_buf blen].
-          repeat split; auto.
+        * unfold inv_bound, do_swap, nxt_ok in *. prj.
+          repeat split; auto; try apply lt_cap_empty.
           destruct (Nat.ltb_spec (p_thr P) (length (bufs (sh s) ++ [cur (sh s)]))) as [Hgt|Hle].
           -- repeat split; auto. intros; discriminate.
           -- rewrite app_length in *. cbn [length] in *. repeat split; try lia; try (intros; discriminate).
              intros Hx. rewrite Eb. cbn [length]. lia.
       + destruct Hpc as [Hn1 [Hn2 Hnx]].
-        unfold inv_bound, do_swap, nxt_ok, lt_cap in *. prj. cbn [empty_buf blen].
-        repeat split; auto.
+        unfold inv_bound, do_swap, nxt_ok in *. prj.
+        repeat split; auto; try apply lt_cap_empty.
         destruct (Nat.ltb_spec (p_thr P) (length (bufs (sh s) ++ [cur (sh s)]))) as [Hgt|Hle].
         * repeat split; auto. intros; discriminate.
         * rewrite app_length in *. cbn [length] in *. repeat split; try lia; try (intros; discriminate).
@@ -646,7 +948,8 @@ Section AsyncProofs.
       + unfold inv_bound. prj. repeat split; auto.
       + destruct Hpc as [Ht1 [Ht2 [Hlen Hnx]]]. unfold inv_bound, nxt_ok in *. prj. cbn [length] in Hlen.
         repeat split; auto. lia.
-      + unfold inv_bound, do_final_swap, lt_cap. prj. cbn [empty_buf blen]. repeat split; auto.
+      + unfold inv_bound, do_final_swap. prj.
+        repeat split; auto; try apply lt_cap_empty.
     - destruct (mark (gh s)); inversion Hstep; subst s'; clear Hstep.
       unfold inv_bound, nxt_ok in *. prj. repeat split; auto.
     - destruct (mark (gh s)); try discriminate. destruct (pc (be s)) eqn:Epc; try discriminate.
@@ -784,7 +1087,8 @@ Section AsyncProofs.
       split; [apply inv_bound_init|]. split; [apply inv_drop_init|apply inv_owner_init].
     - destruct IH as [I1 [I2 [I3 [I4 [I5 I6]]]]]. unfold inv_all.
       split; [eapply inv_hist_step; eassumption|]. split; [eapply inv_out_step; eassumption|].
-      split; [eapply inv_stop_step; eassumption|]. split; [eapply inv_bound_step; eassumption|].
+      split; [eapply inv_stop_step; eassumption|].
+      split; [eapply inv_bound_step; [exact (proj1 (proj2 (proj2 I1)))|eassumption|eassumption]|].
       split; [eapply inv_drop_step; eassumption|eapply inv_owner_step; eassumption].
   Qed.
 
@@ -889,9 +1193,11 @@ Section AsyncProofs.
     - rewrite H in Hd. cbn [C16_Model.dropping] in Hd. rewrite app_nil_r in Hd. exact Hd.
   Qed.
 
+  Definition within_cap (b : buf R) : Prop := blen b <= p_cap P /\ (p_fit_gt P = true -> blen b < p_cap P).
+
   Theorem buffers_bounded progs0 s :
     Forall (Forall small) progs0 -> reachP (init progs0) s ->
-    fault (be s) = false /\ blen (cur (sh s)) < p_cap P /\ Forall (fun b => blen b < p_cap P) (bufs (sh s)) /\
+    fault (be s) = false /\ within_cap (cur (sh s)) /\ Forall within_cap (bufs (sh s)) /\
     (nxt (sh s) = false -> bufs (sh s) <> [] \/ pc_final (pc (be s)) = true) /\
     match pc (be s) with
     | PStart | PLock | PWait | PFinalLock => nb1 (be s) = true /\ nb2 (be s) = true
@@ -900,7 +1206,8 @@ Section AsyncProofs.
     end.
   Proof.
     intros Hs Hr. destruct (inv_all_reach progs0 s Hs Hr) as [_ [_ [_ [[Hf [Hc [Hb Hpc]]] _]]]].
-    repeat split; auto.
+    split; [exact Hf|]. split; [apply lt_cap_le; exact Hc|].
+    split; [eapply Forall_impl; [|exact Hb]; intros b; apply lt_cap_le|]. split.
     - intros Hn. unfold nxt_ok in Hpc.
       destruct (pc (be s)) as [| | |batch|batch|todo [|]| |]; cbn [pc_final]; auto;
         left; repeat match goal with H : _ /\ _ |- _ => destruct H end; auto.
@@ -925,6 +1232,143 @@ Section AsyncProofs.
     - unfold inv_drop in Hd. rewrite H5 in Hd. cbn [C16_Model.dropping] in Hd. rewrite app_nil_r in Hd. exact Hd.
   Qed.
 End AsyncProofs.
+
+(* ====================================================================== stop() terminates *)
+Section Termination.
+  Variables (R : Type) (rlen : R -> Z) (P : params).
+  Notation stepP := (step R rlen P).
+  Notation runP := (run R rlen P).
+
+  Ltac prj := cbn [sh be gh progs cur nxt bufs running pc nb1 nb2 twn fault hist owner mark swapmark batches
+                   fbatch dropped out joined emit set_pc set_be recs blen] in *.
+
+  (* the back-end is never blocked: it has a step from every park point but the exit (the timed wait
+     returns whether or not anybody notifies) *)
+  Lemma be_enabled (s : ast R) : pc (be s) <> PDone -> exists s', stepP s LBack = Some s'.
+  Proof.
+    intros Hn. cbn [step]. unfold be_step.
+    destruct (pc (be s)) as [| | |batch|batch|[|b rest] [|]| |]; try (eexists; reflexivity). congruence.
+  Qed.
+
+  Lemma fe_append_sh r (x : shared_t R) :
+    running (fe_append R rlen P r x) = running x /\
+    (length (bufs (fe_append R rlen P r x)) <= length (bufs x) + 1)%nat.
+  Proof.
+    unfold fe_append. destruct (fits R rlen P r (cur x)); cbn [running bufs]; split; auto; try lia.
+    rewrite app_length. cbn [length]. lia.
+  Qed.
+
+  Lemma stop_sets (s s' : ast R) : stepP s LStop = Some s' -> running (sh s') = false.
+  Proof. cbn [step]. destruct (mark (gh s)); intros H; inversion H; subst. reflexivity. Qed.
+
+  Lemma loop_head_stopped (x : ast R) : running (sh x) = false ->
+    sh (loop_head R P x) = sh x /\
+    (pc (be (loop_head R P x)) = PFinalLock \/ pc (be (loop_head R P x)) = PWrite [] true).
+  Proof.
+    intros Hr. unfold loop_head. rewrite Hr. destruct (p_drain P); cbn [set_pc set_be sh be pc]; auto.
+  Qed.
+
+  (* once running_ is false: every step keeps it false; a back-end step decreases the rank, an append
+     raises it by at most one, stop()/join leave it alone *)
+  Lemma rank_step (s : ast R) l s' : running (sh s) = false -> stepP s l = Some s' ->
+    running (sh s') = false /\
+    match l with
+    | LBack => (stop_rank s' < stop_rank s)%nat
+    | LApp _ => (stop_rank s' <= stop_rank s + 1)%nat
+    | _ => stop_rank s' = stop_rank s
+    end.
+  Proof.
+    intros Hr Hstep. destruct l as [t| | |]; cbn [step] in Hstep.
+    - destruct (nth_error (progs s) t) as [[|r rest]|]; try discriminate.
+      inversion Hstep; subst s'; clear Hstep. destruct (fe_append_sh r (sh s)) as [E1 E2].
+      unfold stop_rank. prj. rewrite E1. split; [exact Hr|].
+      destruct (pc (be s)) as [| | |batch|batch|todo [|]| |]; lia.
+    - unfold be_step in Hstep.
+      destruct (pc (be s)) as [| | |batch|batch|[|b rest] [|]| |] eqn:Epc; inversion Hstep; subst s'; clear Hstep.
+      + destruct (loop_head_stopped s Hr) as [E [Hp|Hp]]; unfold stop_rank; rewrite E, Hp, Epc;
+          split; auto; cbn [length]; try lia.
+      + destruct (bufs (sh s)) eqn:Eb.
+        * unfold stop_rank. prj. rewrite Epc, Eb. split; [auto|cbn [length]; lia].
+        * unfold stop_rank, do_swap. prj. rewrite Epc. split; [auto|].
+          destruct (p_thr P <? length (bufs (sh s) ++ [cur (sh s)]))%nat; rewrite app_length; cbn [length]; lia.
+      + unfold stop_rank, do_swap. prj. rewrite Epc. split; [auto|].
+        destruct (p_thr P <? length (bufs (sh s) ++ [cur (sh s)]))%nat; rewrite app_length; cbn [length]; lia.
+      + unfold stop_rank. prj. rewrite Epc. split; [auto|lia].
+      + unfold stop_rank. prj. rewrite Epc. split; [auto|rewrite firstn_length; lia].
+      + unfold stop_rank. prj. rewrite Epc. split; [auto|cbn [length]; lia].
+      + match goal with |- context [loop_head R P ?x] =>
+          destruct (loop_head_stopped x Hr) as [E [Hp|Hp]]; unfold stop_rank; rewrite E, Hp end;
+          prj; rewrite Epc; split; auto; cbn [length]; try lia.
+      + unfold stop_rank. prj. rewrite Epc. split; [auto|cbn [length]; lia].
+      + unfold stop_rank. prj. rewrite Epc. split; [auto|cbn [length]; lia].
+      + unfold stop_rank, do_final_swap. prj. rewrite Epc. split; [auto|rewrite app_length; cbn [length]; lia].
+    - destruct (mark (gh s)); inversion Hstep; subst s'; clear Hstep. unfold stop_rank. prj. auto.
+    - destruct (mark (gh s)); try discriminate. destruct (pc (be s)) eqn:Epc; try discriminate.
+      destruct (joined (gh s)); inversion Hstep; subst s'; clear Hstep. unfold stop_rank. prj. auto.
+  Qed.
+
+  (* every continuation: the number of back-end steps is bounded by the rank plus the number of appends *)
+  Lemma rank_run ls : forall (s s' : ast R), running (sh s) = false -> runP s ls = Some s' ->
+    running (sh s') = false /\ (count_back ls + stop_rank s' <= stop_rank s + count_app ls)%nat.
+  Proof.
+    induction ls as [|l ls IH]; intros s s' Hr Hrun; cbn [run] in Hrun.
+    - inversion Hrun; subst. split; auto. cbn. lia.
+    - destruct (stepP s l) as [s1|] eqn:E; [|discriminate].
+      destruct (rank_step s l s1 Hr E) as [Hr1 Hk]. destruct (IH s1 s' Hr1 Hrun) as [Hr' Hb].
+      split; [exact Hr'|]. unfold count_back, count_app in *. destruct l; cbn [filter length] in *; lia.
+  Qed.
+
+  Lemma back_frame (s s' : ast R) : stepP s LBack = Some s' ->
+    hist (gh s') = hist (gh s) /\ mark (gh s') = mark (gh s).
+  Proof.
+    cbn [step]. unfold be_step. intros Hstep.
+    destruct (pc (be s)) as [| | |batch|batch|[|b rest] [|]| |]; inversion Hstep; subst s'; clear Hstep;
+      try (destruct (bufs (sh s)));
+      unfold loop_head, do_swap, do_final_swap;
+      try match goal with |- context [if running ?x then _ else _] => destruct (running x); [|destruct (p_drain P)] end;
+      prj; auto.
+  Qed.
+
+  (* left alone, the back-end reaches its exit within stop_rank steps *)
+  Lemma rank_finishes n : forall (s : ast R), running (sh s) = false -> (stop_rank s <= n)%nat ->
+    exists k s', (k <= n)%nat /\ runP s (repeat LBack k) = Some s' /\ pc (be s') = PDone /\
+                 hist (gh s') = hist (gh s) /\ mark (gh s') = mark (gh s).
+  Proof.
+    induction n as [|n IH]; intros s Hr Hn.
+    - exists 0%nat, s. cbn [repeat run]. repeat split; auto.
+      unfold stop_rank in Hn. destruct (pc (be s)) as [| | |batch|batch|todo [|]| |]; try lia. reflexivity.
+    - assert (Hd : pc (be s) = PDone \/ pc (be s) <> PDone)
+        by (destruct (pc (be s)); try (left; reflexivity); right; discriminate).
+      destruct Hd as [Hd|Hd].
+      + exists 0%nat, s. cbn [repeat run]. repeat split; auto. lia.
+      + destruct (be_enabled s Hd) as [s1 E1].
+        destruct (rank_step s LBack s1 Hr E1) as [Hr1 Hlt].
+        destruct (back_frame s s1 E1) as [F1 F2].
+        destruct (IH s1 Hr1) as [k [s' [Hk [Hrun [Hp [Hh Hm]]]]]]; [lia|].
+        exists (S k), s'. cbn [repeat run]. rewrite E1. repeat split; auto; try lia; congruence.
+  Qed.
+
+  Lemma join_returns (s : ast R) :
+    pc (be s) = PDone -> mark (gh s) <> None -> joined (gh s) = false ->
+    exists s', stepP s LJoin = Some s' /\ joined (gh s') = true /\ sh s' = sh s /\ out (gh s') = out (gh s).
+  Proof.
+    intros Hp Hm Hj. cbn [step]. rewrite Hp, Hj. destruct (mark (gh s)); [|congruence].
+    eexists. split; [reflexivity|]. prj. auto.
+  Qed.
+
+  Theorem stop_terminates (s : ast R) :
+    running (sh s) = false ->
+    (forall ls s', runP s ls = Some s' ->
+       running (sh s') = false /\ (count_back ls + stop_rank s' <= stop_rank s + count_app ls)%nat /\
+       (pc (be s') <> PDone -> exists s'', stepP s' LBack = Some s'')) /\
+    (exists k s', (k <= stop_rank s)%nat /\ runP s (repeat LBack k) = Some s' /\ pc (be s') = PDone /\
+       hist (gh s') = hist (gh s) /\ mark (gh s') = mark (gh s)).
+  Proof.
+    intros Hr. split.
+    - intros ls s' Hrun. destruct (rank_run ls s s' Hr Hrun) as [H1 H2]. repeat split; auto. apply be_enabled.
+    - apply (rank_finishes (stop_rank s) s Hr). lia.
+  Qed.
+End Termination.
 
 (* ====================================================================== AsyncLogging on top of LogFile *)
 Section ComposeProofs.
@@ -958,6 +1402,143 @@ Section ComposeProofs.
   Qed.
 End ComposeProofs.
 
+(* ====================================================================== stop(): from append to the files *)
+Section EndToEndProofs.
+  Variables (R A : Type) (bytes : R -> list A) (rlen : R -> Z) (P : params).
+  Hypothesis HP : params_ok P = true.
+  Hypothesis Hagree : sites_agree P = true.
+
+  Notation evs := (evs_ops R A bytes).
+  Notation bb := (bufs_bytes bytes).
+  Notation renderP := (render_batch R P).
+
+  Lemma bufs_bytes_app (l1 l2 : list (buf R)) : bb (l1 ++ l2) = bb l1 ++ bb l2.
+  Proof. unfold bufs_bytes. rewrite map_app, concat_app. reflexivity. Qed.
+
+  Lemma bufs_bytes_one (b : buf R) : bb [b] = buf_bytes bytes b.
+  Proof. unfold bufs_bytes. cbn [map concat]. apply app_nil_r. Qed.
+
+  Lemma concat_map_app {X Y} (f : X -> list Y) (l1 l2 : list X) :
+    concat (map f (l1 ++ l2)) = concat (map f l1) ++ concat (map f l2).
+  Proof. rewrite map_app, concat_app. reflexivity. Qed.
+
+  (* the bytes of a list of buffers are the bytes of their records, in order *)
+  Lemma bufs_bytes_flat (l : list (buf R)) : bb l = concat (map bytes (flat l)).
+  Proof.
+    induction l as [|b l IH]; [reflexivity|].
+    change (b :: l) with ([b] ++ l). rewrite bufs_bytes_app, flat_app, concat_map_app, IH. f_equal.
+    rewrite bufs_bytes_one, flat_one. reflexivity.
+  Qed.
+
+  Lemma evs_app_inv es1 : forall es2 ops chs, evs (es1 ++ es2) ops chs ->
+    exists ops1 ops2 chs1 chs2, ops = ops1 ++ ops2 /\ chs = chs1 ++ chs2 /\ evs es1 ops1 chs1 /\ evs es2 ops2 chs2.
+  Proof.
+    induction es1 as [|e es1 IH]; intros es2 ops chs H.
+    - exists [], ops, [], chs. repeat split; auto. constructor.
+    - cbn [app] in H. inversion H as [|e' o ch es os chs' He Hes]; subst.
+      destruct (IH _ _ _ Hes) as [ops1 [ops2 [chs1 [chs2 [E1 [E2 [H1 H2]]]]]]]. subst.
+      exists (o ++ ops1), ops2, (ch :: chs1), chs2. rewrite app_assoc. repeat split; auto. constructor; assumption.
+  Qed.
+
+  Lemma evs_bufs l : forall ops chs, evs (map OBuf l) ops chs -> concat chs = bb l.
+  Proof.
+    induction l as [|b l IH]; intros ops chs H; cbn [map] in H; inversion H as [|e o ch es os chs' He Hes]; subst.
+    - reflexivity.
+    - inversion He; subst. cbn [concat]. change (b :: l) with ([b] ++ l).
+      rewrite bufs_bytes_app, (IH _ _ Hes), bufs_bytes_one. reflexivity.
+  Qed.
+
+  Lemma evs_flush ops chs : evs [OFlush] ops chs -> concat chs = [].
+  Proof.
+    intros H. inversion H as [|e o ch es os chs' He Hes]; subst. inversion He; subst. inversion Hes; subst. reflexivity.
+  Qed.
+
+  Lemma evs_bufs_flush l ops chs : evs (map OBuf l ++ [OFlush]) ops chs -> concat chs = bb l.
+  Proof.
+    intros H. destruct (evs_app_inv _ _ _ _ H) as [o1 [o2 [c1 [c2 [_ [E [H1 H2]]]]]]]. subst.
+    rewrite concat_app, (evs_bufs _ _ _ H1), (evs_flush _ _ H2). apply app_nil_r.
+  Qed.
+
+  (* the bytes one loop iteration puts into the file *)
+  Lemma evs_render batch ops chs : evs (renderP batch) ops chs ->
+    ((length batch <= p_thr P)%nat /\ concat chs = bb batch) \/
+    ((p_thr P < length batch)%nat /\ exists line, concat chs = line ++ bb (firstn (p_keep P) batch)).
+  Proof.
+    intros H. destruct (render_cases R P HP batch) as [[Hle [_ [_ Er]]]|[Hgt [_ [_ [Ek [_ Er]]]]]]; rewrite Er in H.
+    - left. split; [exact Hle|]. apply (evs_bufs_flush _ _ _ H).
+    - right. split; [exact Hgt|]. cbn [app] in H.
+      inversion H as [|e o ch es os chs' He Hes]; subst. inversion He; subst.
+      inversion Hes as [|e2 o2 ch2 es2 os2 chs2 He2 Hes2]; subst. inversion He2; subst.
+      exists ch2. cbn [concat app]. rewrite (evs_bufs_flush _ _ _ Hes2), Ek. reflexivity.
+  Qed.
+
+  Lemma evs_stream bs fb : forall ops chs,
+    evs (flat_map renderP bs ++ map OBuf fb ++ [OFlush]) ops chs -> stream_ok R A bytes P bs fb (concat chs).
+  Proof.
+    induction bs as [|b bs IH]; intros ops chs H; cbn [flat_map app] in H.
+    - rewrite (evs_bufs_flush _ _ _ H). constructor.
+    - rewrite <- app_assoc in H. destruct (evs_app_inv _ _ _ _ H) as [o1 [o2 [c1 [c2 [_ [E [H1 H2]]]]]]]. subst.
+      rewrite concat_app. specialize (IH _ _ H2).
+      destruct (evs_render _ _ _ H1) as [[Hle Ec]|[Hgt [line Ec]]]; rewrite Ec.
+      + apply so_whole; assumption.
+      + rewrite <- app_assoc. apply so_drop; assumption.
+  Qed.
+
+  Lemma stream_whole bs fb st : stream_ok R A bytes P bs fb st ->
+    Forall (fun b => (length b <= p_thr P)%nat) bs -> st = bb (concat bs ++ fb).
+  Proof.
+    induction 1 as [fb|b bs fb st Hle Hs IH|b bs fb st line Hgt Hs IH]; intros HF.
+    - reflexivity.
+    - inversion HF; subst. cbn [concat]. rewrite <- app_assoc, bufs_bytes_app, <- IH by assumption. reflexivity.
+    - inversion HF; subst. lia.
+  Qed.
+
+  Lemma no_drop_all_whole (bs : list (list (buf R))) :
+    flat_map (dropped_of R P) bs = [] -> Forall (fun b => (length b <= p_thr P)%nat) bs.
+  Proof.
+    induction bs as [|b bs IH]; intros H; constructor; cbn [flat_map] in H; apply app_eq_nil in H; destruct H as [Hb Hr].
+    - destruct (render_cases R P HP b) as [[Hle _]|[_ [_ [Hne _]]]]; [exact Hle|congruence].
+    - apply IH. exact Hr.
+  Qed.
+
+  (* ONE theorem from append to the files: stop() has returned (drain after the loop) and the events the
+     back-end produced were performed as LogFile operations without a stream error, with any clock, roll
+     size, flush interval, short-write pattern.  Then
+       - every record appended before the call is among the records the back-end took ([taken] =
+         [firstn m hist ++ rest], [rest] = records appended while stop() was in progress);
+       - the files concatenated in creation order are, batch by batch, the bytes of the taken buffers minus
+         the announced drops ([stream_ok]: an over-threshold batch contributes one announcement line and
+         its first p_keep buffers); the erased buffers are exactly [flat_map dropped_of batches];
+       - every file consists of whole appends (a buffer is never split across two files);
+       - if nothing was dropped the files are exactly the bytes of [firstn m hist ++ rest] *)
+  Theorem stop_end_to_end progs0 (s : ast R) c now ops chs :
+    p_drain P = true ->
+    Forall (Forall (fun r => rlen r < p_cap P)) progs0 ->
+    reach R rlen P (init progs0) s -> joined (gh s) = true ->
+    0 < now -> evs (out (gh s)) ops chs ->
+    forallb (fun o => negb (op_error o)) ops = true ->
+    let files := files_in_order (lf_run c (lf_new now) ops) in
+    exists m rest,
+      mark (gh s) = Some m /\ (m <= length (hist (gh s)))%nat /\
+      taken (gh s) = firstn m (hist (gh s)) ++ rest /\
+      stream_ok R A bytes P (batches (gh s)) (fbatch (gh s)) (concat (map snd files)) /\
+      dropped (gh s) = flat_map (dropped_of R P) (batches (gh s)) /\
+      (exists groups : list (list (list A)),
+         Forall2 (fun f g => snd f = concat g) files groups /\ concat groups = flat_map (@op_record A) ops) /\
+      (dropped (gh s) = [] -> concat (map snd files) = concat (map bytes (firstn m (hist (gh s)) ++ rest))).
+  Proof.
+    intros Hdrain Hs Hr Hj Hn He Hok files.
+    destruct (stop_flushes R rlen P HP Hagree progs0 s Hdrain Hs Hr Hj) as [m [rest [Em [Hle [Et [_ [Eo Ed]]]]]]].
+    destruct (compose_files R A bytes c now _ _ _ Hn He Hok) as [Ec Hg]. fold files in Ec, Hg.
+    assert (Hst : stream_ok R A bytes P (batches (gh s)) (fbatch (gh s)) (concat (map snd files))).
+    { rewrite Ec. rewrite Eo in He. unfold final_out in He. eapply evs_stream; exact He. }
+    exists m, rest. repeat split; auto.
+    intros Hnil. rewrite (stream_whole _ _ _ Hst).
+    - rewrite bufs_bytes_flat. rewrite <- Et. reflexivity.
+    - apply no_drop_all_whole. rewrite <- Ed. exact Hnil.
+  Qed.
+End EndToEndProofs.
+
 (* ====================================================================== the two trees of F-8 *)
 (* the schedule of corpus/C16/f8_stop_loses_tail.case: start, lock, wait; a record; the back-end swaps
    and is about to write; a second record; stop(); the back-end writes, flushes, tests running_,
@@ -985,7 +1566,7 @@ Qed.
 (* with the drain (the premises are closed boolean facts about the regenerated constants; they are
    discharged by computation in Properties_C16.v, so that this file does not depend on their values) *)
 Lemma stop_flushes_repaired :
-  params_ok (with_drain true current_params) = true -> p_fit_gt current_params = true ->
+  params_ok (with_drain true current_params) = true -> sites_agree current_params = true ->
   forall (R : Type) (rlen : R -> Z) progs0 s,
   Forall (Forall (fun r => rlen r < p_cap current_params)) progs0 ->
   reach R rlen (with_drain true current_params) (init progs0) s ->
@@ -1008,7 +1589,7 @@ Definition current_verdict (drain : bool) : Prop :=
       joined (gh s) = true /\ ~ stop_flushed nat s.
 
 Lemma current_tree :
-  params_ok (with_drain true current_params) = true -> p_fit_gt current_params = true ->
+  params_ok (with_drain true current_params) = true -> sites_agree current_params = true ->
   current_verdict AsyncLogging_drain_after_loop /\
   with_drain AsyncLogging_drain_after_loop current_params = current_params.
 Proof.
@@ -1023,10 +1604,19 @@ Lemma small_lines :
   forall n, n <= LogStream_kSmallBuffer -> n < p_cap current_params.
 Proof. intros H n Hn. apply Z.ltb_lt in H. lia. Qed.
 
+(* the defaults a LogFile is constructed with make the flush / check theorems applicable *)
+Lemma default_cfg_sane :
+  ((0 <=? LogFile_default_flushInterval) && (1 <=? LogFile_default_checkEveryN) && (0 <? LogFile_kRollPerSeconds)) = true ->
+  0 <= flushInterval (default_cfg 0) /\ 1 <= checkEveryN (default_cfg 0) /\ 0 < LogFile_kRollPerSeconds.
+Proof.
+  intros H. apply andb_true_iff in H. destruct H as [H H3]. apply andb_true_iff in H. destruct H as [H1 H2].
+  apply Z.leb_le in H1. apply Z.leb_le in H2. apply Z.ltb_lt in H3. cbn [default_cfg flushInterval checkEveryN]. auto.
+Qed.
+
 (* the theorems instantiated with the constants of the current tree *)
 Section Current.
   Hypothesis Hok : params_ok current_params = true.
-  Hypothesis Hfit : p_fit_gt current_params = true.
+  Hypothesis Hfit : sites_agree current_params = true.
   Variables (R : Type) (rlen : R -> Z) (progs0 : list (list R)) (s : ast R).
   Hypothesis Hlines : Forall (Forall (fun r => rlen r <= LogStream_kSmallBuffer)) progs0.
   Hypothesis Hsm : (LogStream_kSmallBuffer <? p_cap current_params) = true.
